@@ -107,6 +107,19 @@ Theorem C03_legacy_session_is_script_validation : forall low_s tap_tweak_ok sha2
   ended (Session.dbg_continue low_s tap_tweak_ok sha256 f c v0) (verify_ref low_s c (i_e v0) (i_succ v0)).
 Proof. exact session_is_validation. Qed.
 
+(* the single-script case of the same theorem, spelled out: this is how the witness script of a P2WSH input, the implied P2PKH script of a
+   P2WPKH input, the key-path check of a taproot input and a tapscript (after its commitment phase, C05) are run - on the stack the
+   configuration theorems above prescribe: the session ends as one evaluation of that script followed by the balanced-nesting test *)
+Theorem C03_single_script_session_is_one_evaluation : forall low_s tap_tweak_ok sha256 c v0 f,
+  i_tce v0 = None -> i_p2sh v0 = false -> i_done v0 = false -> i_pc v0 = e_script (i_e v0) -> i_succ v0 = [] -> enough low_s c f v0 ->
+  ended (Session.dbg_continue low_s tap_tweak_ok sha256 f c v0)
+        (match eval_ref low_s c (i_e v0) (e_script (i_e v0)) with (e1, SOk) => finish e1 | (e1, st) => failed_verdict e1 st end).
+Proof.
+  intros low_s tap_tweak_ok sha256 c v0 f Ht Hp Hd Hpc Hs Hf.
+  pose proof (session_is_validation low_s tap_tweak_ok sha256 c v0 f Ht Hp Hd Hpc Hf) as H.
+  unfold verify_ref in H. rewrite Hs in H. exact H.
+Qed.
+
 (* non-vacuity: the start state of every session built by setup_environment for a scriptSig that is not itself P2SH-shaped meets the premises *)
 Example C03_session_premises : forall c script stack succ ed, script <> [] ->
   i_p2sh (setup_env c script stack succ ed None) = false ->
@@ -131,6 +144,7 @@ Qed.
 
 Print Assumptions C03_selection_sound.
 Print Assumptions C03_legacy_session_is_script_validation.
+Print Assumptions C03_single_script_session_is_one_evaluation.
 Print Assumptions C03_control_block_size_bounds.
 Print Assumptions C03_wrong_selection_refused.
 Print Assumptions C03_selection_out_of_range_refused.
